@@ -36,7 +36,7 @@ from decimal import Decimal
 from whoosh import analysis, columns, formats
 from whoosh.compat import with_metaclass
 from whoosh.compat import itervalues, xrange
-from whoosh.compat import bytes_type, string_type, text_type
+from whoosh.compat import bytes_type, integer_types, string_type, text_type
 from whoosh.system import emptybytes
 from whoosh.system import pack_byte
 from whoosh.util.numeric import to_sortable, from_sortable
@@ -696,7 +696,12 @@ class NUMERIC(FieldType):
             return x
 
         dc = self.decimal_places
-        if dc and isinstance(x, (string_type, Decimal)):
+        if dc and isinstance(x, float):
+            # Decimal(float) would expose the binary expansion (0.29 ->
+            # 0.28999...), which the truncation below turns into 0.28
+            x = repr(x)
+        if dc and isinstance(x, (string_type, Decimal) + integer_types):
+            # Every number is scaled, ints as well: 5 means 5, not 5 / 10**dc
             x = Decimal(x) * (10 ** dc)
         elif isinstance(x, Decimal):
             raise TypeError("Can't index a Decimal object unless you specified "
@@ -784,14 +789,21 @@ class NUMERIC(FieldType):
             if not self.is_valid(start):
                 raise QueryParserError("Range start %r is not a valid number"
                                        % start)
-            start = self.prepare_number(start)
+            start = self._range_number(start)
         if end is not None:
             if not self.is_valid(end):
                 raise QueryParserError("Range end %r is not a valid number"
                                        % end)
-            end = self.prepare_number(end)
+            end = self._range_number(end)
         return query.NumericRange(fieldname, start, end, startexcl, endexcl,
                                   boost=boost)
+
+    def _range_number(self, x):
+        # NumericRange prepares its bounds itself: hand it the number, not
+        # the scaled integer of a field with decimal places
+        if self.decimal_places:
+            return Decimal(x)
+        return self.prepare_number(x)
 
     def sortable_terms(self, ixreader, fieldname):
         zero = b"\x00"
